@@ -49,8 +49,8 @@ META = dict(
          'atom) and one addbasis; non-trivial = some site with a point group of order > 1; exhaustive cases: one per '
          '(subgroup, orientation, operation order); distinct by exact crystal / subgroup key',
     trusted=['harness/c18lib.py (generators, snapping, native driver build; Crystal.genBZG is stubbed out for speed — C22\'s subject, not read by the symmetry code)'],
-    assumptions=['as C18: exactly symmetric rational structures, scalar spins; query points for Wyckoffpos are rational '
-                 'with small denominators'],
+    assumptions=['exact model: exactly symmetric rational structures, scalar spins, rational query points; a loose-threshold stream '
+                 '(noise 1e-6, threshold 1e-4) is judged by float oracles against the noise-free crystal'],
 )
 
 DRV = 'C20'
@@ -573,6 +573,62 @@ def _rank(rows):
     return rk
 
 
+def loose_stream(ctx, nprng, n):
+    """coordinates symmetric only to within a deliberately loose threshold (noise 1e-6, threshold 1e-4): group order,
+    point-group orders, Wyckoff sets and "adding a full orbit keeps the symmetry" must be those of the noise-free crystal"""
+    rng = ctx.rng
+    names = ('HCP-ideal', 'HCP-1.6', 'FCC', 'B2', 'diamond', 'omega', 'L12', 'tet-lowsym', 'honeycomb', 'square-2sp', 'hBN', 'rocksalt')
+    pool = [x for x in X.zoo() if x.name in names]
+    for k in range(n):
+        xc = pool[k % len(pool)] if k < 2 * len(pool) else X.random_xc(rng, nprng, maxatoms=5, redescribe=0.0, spins_prob=0.0)
+        try:
+            c0 = X.build(xc)
+            c1 = X.build(xc, noise=1e-6, nprng=nprng, threshold=1e-4)
+        except (ArithmeticError, RecursionError) as e:
+            ctx.count('ctor:%s(reduce/minlattice; C19)' % type(e).__name__); continue
+        ctx.count('loose-threshold-stream')
+        ctx.case(('loose', xc.key(), k), nontrivial=len(c0.G) > 1)
+        rp = _replay(xc, dict(noise=1e-6, threshold=1e-4, how='c18lib.build(xc, noise=1e-6, threshold=1e-4); W = crys.Wyckoffpos(u); crys.addbasis(W)'))
+        if c0.N != c1.N: continue      # reduced differently: not the situation under test
+        rp.update(built_lattice_columns=c1.lattice.T.tolist(), built_basis=[[u.tolist() for u in a] for a in c1.basis],
+                  replay='crystal.Crystal(np.array(built_lattice_columns).T, built_basis, threshold=1e-4, noreduce=True)')
+        if len(c1.G) != len(c0.G):
+            ctx.violation('loose:group-order', '%s with 1e-6 noise and threshold 1e-4: |G| = %d, noise-free crystal %d' % (xc.name, len(c1.G), len(c0.G)), rp); continue
+        if [[len(p) for p in row] for row in c1.pointG] != [[len(p) for p in row] for row in c0.pointG]:
+            ctx.violation('loose:point-group-orders', '%s: point-group orders differ from the noise-free crystal' % xc.name, rp)
+        if set(c1.Wyckoff) != set(c0.Wyckoff):
+            ctx.violation('loose:wyckoff-sets', '%s: Wyckoff sets differ from the noise-free crystal' % xc.name, rp)
+        d = xc.d
+        for q in range(2):
+            u = np.array([rng.randrange(1, 12) / rng.choice((5, 7, 9)) for _ in range(d)]) if q == 0 else \
+                np.array([rng.randrange(0, 8) / 8 for _ in range(d)])
+            W1 = c1.Wyckoffpos(u)     # (c0 and c1 may be centred differently: the same u is not the same point in both)
+            rq = dict(rp, u=u.tolist())
+            if len(W1) > 24 or c1.N + len(W1) > 30: continue
+            if any(np.abs((w - a) - np.round(w - a)).max() < 1e-2 for w in W1 for atoms in c1.basis for a in atoms): continue
+            if any(np.abs((W1[a] - W1[b]) - np.round(W1[a] - W1[b])).max() < 1e-2 for a in range(len(W1)) for b in range(a)): continue
+            if len(c1.G) % len(W1) != 0:
+                ctx.violation('loose:wyckoffpos-size', '%s: Wyckoffpos(%s) has %d points, which does not divide |G| = %d' % (xc.name, u.tolist(), len(W1), len(c1.G)), rq)
+                continue
+            try:
+                c2 = c1.addbasis(W1)
+            except (ArithmeticError, RecursionError):
+                continue
+            except Exception as e:
+                ctx.violation('loose:addbasis-raises:%s' % type(e).__name__, 'addbasis raises %r' % (e,), rq); continue
+            ctx.count('loose:addbasis')
+            if c2.N != c1.N + len(W1): continue
+            if len(c2.G) != len(c1.G):
+                ctx.violation('loose:addbasis-changes-group-order', '%s (threshold 1e-4, noise 1e-6): adding the full orbit of %s (%d sites) changes |G| from %d to %d '
+                              '(threshold of the new crystal %g)' % (xc.name, u.tolist(), len(W1), len(c1.G), len(c2.G), c2.threshold), rq)
+                continue
+            if [[len(p) for p in row] for row in c2.pointG[:len(c1.pointG)]] != [[len(p) for p in row] for row in c1.pointG]:
+                ctx.violation('loose:addbasis-changes-point-groups', '%s: point-group orders of the original sites change after addbasis of a full orbit' % xc.name, rq)
+            nsets = len([w for w in c2.Wyckoff if next(iter(w))[0] == len(c1.basis)])
+            if nsets != 1:
+                ctx.violation('loose:addbasis-orbit-splits', '%s: the added full orbit splits into %d Wyckoff sets' % (xc.name, nsets), rq)
+
+
 def run(ctx):
     nprng = np.random.default_rng(ctx.rng.getrandbits(32))
     nat = X.native_driver(DRV, MODELS) is not None
@@ -588,6 +644,7 @@ def run(ctx):
     answers = X.run_driver(ctx, DRV, MODELS, l1 + l2)
     eval_exhaustive(ctx, l1, p1, answers[:len(l1)])
     eval_crystals(ctx, l2, p2, answers[len(l1):])
+    loose_stream(ctx, nprng, 30 if ctx.quick else 400)
 
 
 def search(ctx, reasons):
